@@ -6,25 +6,13 @@
      regenerated from debug/__init__.py on every run; the failure counter is a number that
      every store reduces modulo value_modulus. *)
 From Coq Require Import ZArith.
-From Wz Require Import lib.Bytes C20.Types C20.Gen.
+From Wz Require Import lib.Bytes C20.Types C20.Str C20.Gen.
 Open Scope N_scope.
 
-Definition COLON : N := 58.
-Definition DOT : N := 46.
-Definition LBR : N := 91.
-Definition RBR : N := 93.
-Definition BAR : N := 124.
-Definition DASH : N := 45.
-Definition PLUS : N := 43.
-Definition USCORE : N := 95.
-
-Definition is_ascii_str (s : str) : bool := forallb (fun c => c <? 128) s.
-
-(* s.endswith(p) *)
-Definition ends_with (p s : str) : bool := starts_with (rev p) (rev s).
-
 (* ------------------------------------------------------------------ _strip_port *)
-Definition strip_port (h : str) : str :=
+(* reference reading of _strip_port; the function the model runs is Gen.strip_port, regenerated from
+   the source and proved equal to this one (Proofs.strip_port_eq) *)
+Definition strip_port_ref (h : str) : str :=
   match h with
   | [] => []
   | c :: r =>
@@ -40,35 +28,11 @@ Definition strip_port (h : str) : str :=
       else fst (partition1 COLON h)
   end.
 
-(* ------------------------------------------------------------------ str.encode("idna") *)
-(* ASCII fast path of encodings.idna: every label but the last has 1..63 characters, the last
-   0..63.  n is the length of the label being scanned. *)
-Fixpoint ascii_labels_ok (s : str) (n : N) : bool :=
-  match s with
-  | [] => n <? 64
-  | c :: r => if c =? DOT then (0 <? n) && (n <? 64) && ascii_labels_ok r 0
-              else ascii_labels_ok r (n + 1)
-  end.
-
 Section Host.
 (* str.encode("idna") on text with a non-ASCII character: Some bytes, or None for UnicodeError *)
 Variable idna_u : str -> option str.
 
-(* s.encode("idna").decode("ascii") ; None = UnicodeError (or a subclass) *)
-Definition idna_encode (s : str) : option str :=
-  match s with
-  | [] => Some []
-  | _ => if is_ascii_str s then (if ascii_labels_ok s 0 then Some s else None)
-         else match idna_u s with
-              | Some o => if is_ascii_str o then Some o else None
-              | None => None
-              end
-  end.
-
-Definition norm_host (h : str) : option str := idna_encode (strip_port h).
-
-(* what the handler around the encoding does with a UnicodeError *)
-Definition on_idna_failure (catches : bool) : res bool := if catches then Ok false else Err UnicodeError.
+Definition norm_host (h : str) : option str := idna_encode idna_u (strip_port_ref h).
 
 (* ref.startswith(".") -> (ref[1:], True) *)
 Definition split_dot (ref : str) : str * bool :=
@@ -83,7 +47,7 @@ Fixpoint match_refs (hostname : str) (l : list str) : res bool :=
   | ref :: rest =>
       let '(ref1, suffix_match) := split_dot ref in
       match norm_host ref1 with
-      | None => on_idna_failure ref_catches_unicode_error
+      | None => Ok false
       | Some refn =>
           if list_eqb refn hostname || (suffix_match && ends_with (DOT :: refn) hostname)
           then Ok true else match_refs hostname rest
@@ -91,12 +55,13 @@ Fixpoint match_refs (hostname : str) (l : list str) : res bool :=
   end.
 
 (* hostname : None = no Host header *)
-Definition host_is_trusted (hostname : option str) (l : list str) : res bool :=
+(* reference reading of host_is_trusted (the generated Gen.host_is_trusted is proved equal to it) *)
+Definition host_is_trusted_ref (hostname : option str) (l : list str) : res bool :=
   match hostname with
   | None => Ok false
   | Some [] => Ok false
   | Some h => match norm_host h with
-              | None => on_idna_failure host_catches_unicode_error
+              | None => Ok false
               | Some hn => match_refs hn l
               end
   end.
@@ -111,9 +76,10 @@ Definition s_443 : str := [58; 52; 52; 51].
 
 Definition drop_last (n : nat) (s : str) : str := firstn (length s - n) s.
 
-(* server = (name, port); the port arrives rendered as decimal text (None for a unix socket) *)
-Definition get_host (scheme : str) (host_header : option str) (server : option (str * option str))
-                    (trusted : option (list str)) : res str :=
+(* the host get_host works with: the Host header, else SERVER_NAME (bracketed when it is a bare IPv6
+   address) and port; only the default port suffix of the scheme is removed.
+   server = (name, port); the port arrives rendered as decimal text (None for a unix socket) *)
+Definition assemble (scheme : str) (host_header : option str) (server : option (str * option str)) : str :=
   let host0 :=
     match host_header with
     | Some h => h
@@ -126,13 +92,18 @@ Definition get_host (scheme : str) (host_header : option str) (server : option (
             match port with Some p => h1 ++ COLON :: p | None => h1 end
         end
     end in
-  let host :=
-    if (list_eqb scheme s_http || list_eqb scheme s_ws) && ends_with s_80 host0 then drop_last 3 host0
-    else if (list_eqb scheme s_https || list_eqb scheme s_wss) && ends_with s_443 host0 then drop_last 4 host0
-    else host0 in
+  if (list_eqb scheme s_http || list_eqb scheme s_ws) && ends_with s_80 host0 then drop_last 3 host0
+  else if (list_eqb scheme s_https || list_eqb scheme s_wss) && ends_with s_443 host0 then drop_last 4 host0
+  else host0.
+
+(* reference reading of get_host (Gen.get_host is proved equal to it): trusted = None means no
+   validation; Some l (the empty list included) means the host must be trusted by l *)
+Definition get_host_ref (scheme : str) (host_header : option str) (server : option (str * option str))
+                        (trusted : option (list str)) : res str :=
+  let host := assemble scheme host_header server in
   match trusted with
   | None => Ok host
-  | Some l => match host_is_trusted (Some host) l with
+  | Some l => match host_is_trusted_ref (Some host) l with
               | Ok true => Ok host
               | Ok false => Err SecurityError
               | Err e => Err e
@@ -302,11 +273,37 @@ Definition run_hist (count : N) (h : list atoms) : N :=
 (* display_console creates the console frame (frames[0]) when it answers *)
 Definition creates_console_frame (o : outcome) : bool := match o with OConsole _ => true | _ => false end.
 
+(* ---- the frames table as state (cross-request facts).  A request is its atoms (a_frame is
+   recomputed from the state), the frame id it names (frm, parsed) and the ids the traceback would
+   register if the wrapped application raised while handling it. *)
+Record dstate := { d_count : N; d_frames : list Z }.
+Record areq := { ar_atoms : atoms; ar_frm : option Z; ar_new_frames : list Z }.
+
+Definition with_frame (r : atoms) (b : bool) : atoms :=
+  {| a_dbg := a_dbg r; a_cmd := a_cmd r; a_arg := a_arg r; a_secret_ok := a_secret_ok r; a_frame := b;
+     a_evalex := a_evalex r; a_console_path_set := a_console_path_set r; a_path_is_console := a_path_is_console r;
+     a_host_trusted := a_host_trusted r; a_pin_trust := a_pin_trust r; a_pin_present := a_pin_present r;
+     a_pin_matches := a_pin_matches r; a_pin_logging := a_pin_logging r; a_pin_is_none := a_pin_is_none r |}.
+
+Definition frame_in (frames : list Z) (f : option Z) : bool :=
+  match f with Some z => existsb (Z.eqb z) frames | None => false end.
+
+(* the atoms the dispatcher sees in state s *)
+Definition atoms_in (s : dstate) (q : areq) : atoms := with_frame (ar_atoms q) (frame_in (d_frames s) (ar_frm q)).
+
+Definition astep (s : dstate) (q : areq) : outcome * dstate :=
+  let '(o, k) := call (atoms_in s q) (lock_test (d_count s)) in
+  (o, {| d_count := apply_cnt k (d_count s);
+         d_frames := if creates_console_frame o then 0%Z :: d_frames s
+                     else match o with OApp => ar_new_frames q ++ d_frames s | _ => d_frames s end |}).
+
+Definition arun (s : dstate) (h : list areq) : dstate := fold_left (fun s q => snd (astep s q)) h s.
+
 Inductive run_res := RUnsupported | ROut (o : outcome) (count : N) (sleep : option N).
 
 (* DebuggedApplication.__call__ on a concrete request *)
 Definition run (cfg : config) (q : request) (count : N) : run_res :=
-  match host_is_trusted (q_host q) (c_trusted cfg) with
+  match host_is_trusted idna_u (q_host q) (c_trusted cfg) with
   | Err e => ROut (ORaise e) count None
   | Ok ht =>
       match abstract cfg q ht with
